@@ -20,7 +20,7 @@
  3b. size sweeps: Message / line / chunk sizes across every internal threshold of the gateways (read from their sources), incl. the documented receiver limits.
  4. directed cases of the open known findings F12 (empty chunk hides the rest) and F42 (two layouts with the same template id: the second
     Message arrives altered) and of the repaired F41 (templating receiver kept its old inflater when the sender's zlib level changed);
-    F41 and F42 were found by this check.
+    F41 and F42 were found by this check.  F47 (a reuse-tagged Message shares one connection's zlib / template state with others): directed cases + controls.
 """
 import concurrent.futures as cf, copy, json, os, re, threading, time
 import vlib, pathcover
@@ -177,12 +177,13 @@ def _run(v, tier, seed):
     rep = W("directed.ndjson")
     harness("gw", ["directed", rep], "directed")
     s = judge(vlib.read_ndjson(rep), "directed case", "directed")
-    notes["f12_reproduced"] = s.get("f12_reproduced"); notes["f41_reproduced"] = s.get("f41_reproduced"); notes["f42_reproduced"] = s.get("f42_reproduced")
+    notes["f12_reproduced"] = s.get("f12_reproduced"); notes["f41_reproduced"] = s.get("f41_reproduced"); notes["f42_reproduced"] = s.get("f42_reproduced"); notes["f47_reproduced"] = s.get("f47_reproduced")
     # F42 (template id collision): while it reproduces, the random runs do not queue colliding pairs on templating connections
     henv_box[0] = None if s.get("f42_reproduced") else {"C03_ALLOW_TEMPLATE_COLLISIONS": "1"}
     # sender-side zlib level changes while the connection is up (F41, repaired in 3fb55a8, was found with these: a reappearance is a VIOLATION)
     groups = [list(g) for g in GW_GROUPS]
     groups[1].append("bin_lvl"); groups[2].append("tpl_lvl")
+    groups[0].append("bin0_tag")     # every Message reuse-tagged and shared with a second connection (no compression: known finding F47 otherwise)
     for r in vlib.read_ndjson(rep):
         if not r.get("summary"): samples.append({"kind": "directed case", "case": r.get("case"), "chunks": r.get("chunks"), "bytes_queued": r.get("bytes_queued"), "bytes_handed_over": r.get("bytes_handed_over"), "reproduced": r.get("reproduced")})
 
@@ -578,13 +579,14 @@ def _run(v, tier, seed):
            "rule": "behaviours = path cover of EVERY transition of the TLC state graph of GwBinaryImpl (HS=2, SCR=5, bodies below / at / above the scratch size, maxBytes 1,2,3,unlimited, every transport budget) "
                    "and of GwTemplateCache; distinct by construction (each adds an uncovered transition; simulated ones de-duplicated by hash); each replayed under every gateway configuration in 1-3 concretisations; "
                    "non-trivial = followed to the end with every item handed over equal to the item queued, everything delivered at quiescence and (MessageIOGateway framing) every call equal to the specification's step",
-           "exhaustive": True, "per_configuration": per_cfg, "model_runs": mc_notes, "generation_instances": gen_notes, "f12_directed_cases_reproduced": notes.get("f12_reproduced"), "f41_directed_case_reproduced": notes.get("f41_reproduced"), "f42_directed_case_reproduced": notes.get("f42_reproduced"), "random_messages_skipped_because_of_F42": exs.get("messages_skipped_known_finding"),
+           "exhaustive": True, "per_configuration": per_cfg, "model_runs": mc_notes, "generation_instances": gen_notes, "f12_directed_cases_reproduced": notes.get("f12_reproduced"), "f41_directed_case_reproduced": notes.get("f41_reproduced"), "f42_directed_case_reproduced": notes.get("f42_reproduced"), "f47_directed_cases_reproduced": notes.get("f47_reproduced"), "random_messages_skipped_because_of_F42": exs.get("messages_skipped_known_finding"),
            "samples": samples[:10]}
     assumptions = ["the transport is a reliable byte stream (no loss, duplication, reordering or corruption of bytes: hostile bytes are property C02, packet transports C12); it may deliver any number of bytes per call, including 0",
                    "byte identity in GwBinaryImpl is the position in the sender's output stream; content-dependent encodings (zlib history, templates) are bound by comparing the flattened bytes of real Messages end to end, "
                    "with identical repeats and templatable / non-templatable Messages in the menu; the zlib history dependence is model-checked separately (GwCodecHistory) and bound by the random runs with level changes (bin_lvl, tpl_lvl) and the directed case of F41, not by generated behaviours",
                    "TLC instances: 2-3 Messages per behaviour in the exhaustive graphs (6 in the simulated ones), header 2-3 units, scratch 5-6 units; the real constants 8 / 2048 are used by GwBinaryTrace on recorded runs and by the concretisation of the behaviours",
                    "on a templating connection the random runs do not queue a Message whose template id equals that of an earlier Message of another layout while known finding F42 is open (the skipped Messages are counted)",
+                   "Messages carry the reuse tag (OptimizeMessageForTransmissionToMultipleGateways) only on uncompressed plain gateways (configuration bin0_tag) and in the directed cases while known finding F47 is open",
                    "raw and SLIP chunks of length 0 are generated only as the LAST chunk of a Message (known finding F12 otherwise); WebSocket without a slave gateway is driven with non-empty chunks only",
                    "granularity as each gateway documents itself: whole Messages (binary, templating, WebSocket with slave, mini / micro), text lines, non-empty chunks (SLIP, WebSocket without slave), the byte stream (raw; with a minimum chunk size up to min-1 bytes stay behind)",
                    "DoOutput / DoInput return values and the exact number of Write() / Read() calls are algorithm-level (DRIFT), not part of the property as stated"]
